@@ -294,7 +294,12 @@ func (c *Ctx) checkFrame(st *State, ct *FuncContract, env *SpecEnv) {
 	}
 	var keys []string
 	for k := range st.heap {
-		if strings.HasPrefix(k, "\x00") {
+		if strings.HasPrefix(k, "\x00ep:") {
+			// havoc'd before its sort was known: modified as a whole
+			kk := strings.TrimPrefix(k, "\x00ep:")
+			if locs, ok := allowed[kk]; !(ok && contains(locs, "")) {
+				c.addObl(st, "frame", "frame."+mangle(kk), "false", "heap "+kk+" may have been modified as a whole, outside the modifies clause")
+			}
 			continue
 		}
 		keys = append(keys, k)
